@@ -191,6 +191,8 @@ impl ObjUpvalue {
     }
 
     pub(crate) fn get(&self) -> Value {
+        #[cfg(feature = "verif_hooks")]
+        self.verif_check();
         match self.data {
             ObjUpvalueState::Open(a) => unsafe { *a },
             ObjUpvalueState::Closed(v) => v,
@@ -198,9 +200,18 @@ impl ObjUpvalue {
     }
 
     pub(crate) fn set(&mut self, value: Value) {
+        #[cfg(feature = "verif_hooks")]
+        self.verif_check();
         match self.data {
             ObjUpvalueState::Open(a) => unsafe { *a = value },
             ObjUpvalueState::Closed(ref mut v) => *v = value,
+        }
+    }
+
+    #[cfg(feature = "verif_hooks")]
+    fn verif_check(&self) {
+        if let ObjUpvalueState::Open(a) = self.data {
+            crate::memory::verif::check_raw(a as usize, "open upvalue into the value stack of a swept ObjFiber");
         }
     }
 
@@ -1145,6 +1156,12 @@ impl ObjFiber {
 }
 
 impl GcManaged for ObjFiber {
+    #[cfg(feature = "verif_hooks")]
+    fn verif_dead_range(&self) -> Option<(usize, usize)> {
+        let lo = self.stack.as_ptr() as usize;
+        Some((lo, lo + STACK_MAX * std::mem::size_of::<Value>()))
+    }
+
     fn mark(&self) {
         self.stack.mark();
         self.frames.mark();
